@@ -21,7 +21,7 @@ def run_kani_units(pid, tier, units, seed, ev, outcome):
     known = load_known()
     for feats, us in by_feat.items():
         names = [u["harness"] for u in us]
-        tmo = max(u.get("timeout_s", 900) for u in us)
+        tmo = max(u.get("timeout_s", 2400) for u in us)
         mem = max(u.get("mem_gb", 20) for u in us)
         jobs = min(len(names), max(1, min(NCPU, int(56 // max(1, max(u.get("mem_class_gb", 3) for u in us))))))
         log("[K] %s: %d harnesses, features=%s, jobs=%d" % (pid, len(names), list(feats), jobs))
